@@ -24,7 +24,8 @@ echo "== existing tests WITH patch" >> $LOG
 CRATES=$(git diff --name-only | cut -d/ -f1 | sort -u)
 R2=0
 for c in $CRATES cedar-policy; do
-  cargo test --offline -q -p $c $FEAT --lib -j 8 2>&1 | grep -E "^test result|FAILED|failed|error(\[|:)" >> $LOG; [ ${PIPESTATUS[0]} -ne 0 ] && R2=1
+  F2=$FEAT; FN=$(echo "$FEAT" | sed 's/--features //'); [ -n "$FN" ] && ! grep -q "^$FN\b" $WT/$c/Cargo.toml && F2=""   # a feature of the demo crate that this crate does not have
+  cargo test --offline -q -p $c $F2 --lib -j 8 2>&1 | grep -E "^test result|FAILED|failed|error(\[|:)" >> $LOG; [ ${PIPESTATUS[0]} -ne 0 ] && R2=1
 done
 echo "existing-tests-exit=$R2" >> $LOG
 git checkout -q -- .
